@@ -411,6 +411,13 @@ static void closePids()
           if(it->data->ref)
             closeOne(it->data, 1);
       }
+      else if(d->type == Variant::arrayType)
+      {
+        const Array<Variant>* a = (const Array<Variant>*)(d + 1);
+        for(usize k = 0; k < a->size(); ++k)
+          if((*a)[k].data->ref)
+            closeOne((*a)[k].data, 1);
+      }
     }
     else if(r.kind == 2)
     {
@@ -458,7 +465,7 @@ static void putPayload(int pid)
       const Array<Variant>* a = (const Array<Variant>*)(d + 1);
       tag = 14;
       for(usize i = 0; i < a->size() && len < sizeof(buf); ++i)
-        buf[len++] = (unsigned char)(*a)[i].toInt();
+        buf[len++] = (*a)[i].data->ref ? 0 : (unsigned char)(*a)[i].toInt();    // a boxed element is printed as an embedded handle
     }
     else if(d->type == Variant::mapType)
     {
@@ -524,6 +531,17 @@ static void putPayload(int pid)
       if(i->data->ref) putBlockTok(i->data, 1); else printf("n");
     }
   }
+  else if(tag == 14)
+  {
+    const Array<Variant>* a = (const Array<Variant>*)((Variant::Data*)r.addr + 1);
+    printf(">");
+    if(a->size() == 0) printf("-");
+    for(usize i = 0; i < a->size(); ++i)
+    {
+      if(i) printf(",");
+      if((*a)[i].data->ref) putBlockTok((*a)[i].data, 1); else printf("n");
+    }
+  }
   else if(tag == 23)
   {
     const Xml::Element* e = (const Xml::Element*)((Xml::Variant::Data*)r.addr + 1);
@@ -575,7 +593,7 @@ static const struct { const char* name; const char* args; } OPTAB[] = {
   {"xcopy", "ii"}, {"xassign", "ii"}, {"xclear", "i"}, {"xsets", "ih"}, {"xelem", "ih"},
   {"pnew", "in"}, {"pcopy", "ii"}, {"passign", "ii"}, {"pclear", "i"}, {"pswap", "ii"}, {"praw", "ii"}, {"pctor", "ii"},
   {"plink", "ii"}, {"pnext", "i"}, {"pnextof", "ii"},
-  {"vpushv", "ii"}, {"vgetv", "iin"}, {"xaddc", "ii"}, {"xgetc", "iin"},
+  {"vpushv", "ii"}, {"vgetv", "iin"}, {"xaddc", "ii"}, {"xgetc", "iin"}, {"apushv", "ii"}, {"agetv", "iin"},
   {0, 0}};
 
 static bool parseOp(char** tok, int ntok, OpRec& o)
@@ -657,6 +675,7 @@ static bool execOp(const OpRec& o)
     else if(!strcmp(n, "schar")) { char* p = *S[d]; (void)p; }
     else if(!strcmp(n, "sprintf")) S[d]->printf("%d", s);
     break;
+  case 'a':     // apushv / agetv: Variant calls on Array payloads
   case 'v':
     curKind = 1;
     if(!strcmp(n, "vcopy")) { if(d != s) { V[d]->~Variant(); new(stV[d]) Variant(*V[s]); } }
@@ -678,6 +697,18 @@ static bool execOp(const OpRec& o)
       usize len = V[d]->getType() == Variant::listType ? ((const Variant*)V[d])->toList().size() : 0;
       if(d == s || V[s]->isNull() || (V[s]->data->ref && len >= FAMK)) ok = false;
       else V[d]->toList().append(*V[s]);
+    }
+    else if(!strcmp(n, "apushv"))
+    {
+      usize len = V[d]->getType() == Variant::arrayType ? ((const Variant*)V[d])->toArray().size() : 0;
+      if(d == s || V[s]->isNull() || (V[s]->data->ref && len >= FAMK)) ok = false;
+      else V[d]->toArray().append(*V[s]);
+    }
+    else if(!strcmp(n, "agetv"))
+    {
+      const Array<Variant>& a = ((const Variant*)V[s])->toArray();
+      if(V[s]->getType() != Variant::arrayType || (usize)o.c >= a.size()) ok = false;
+      else *V[d] = a[(usize)o.c];
     }
     else if(!strcmp(n, "vgetv"))
     {
